@@ -9,6 +9,8 @@ import ClarabelProofs.Lemmas.NonsymPd
 import ClarabelProofs.Lemmas.NonsymExpConj
 import ClarabelProofs.Lemmas.NonsymGenPow
 import ClarabelProofs.Lemmas.NonsymPowConj
+import ClarabelProofs.Lemmas.NonsymExp3
+import ClarabelProofs.Lemmas.NonsymChol
 
 namespace Clarabel.C14
 open Clarabel
@@ -158,6 +160,39 @@ theorem exp_conjugacy {s0 s1 s2 w : ℝ} (hs : ExpPrimalInterior s0 s1 s2) (hw0 
   have hh := (exp_log_homogeneity hint').1
   simp only [hgrad] at hh
   linarith
+
+/-- [R] `C14.third_order` (exponential cone).  The vector computed by `higher_correction` after
+the solve `H u = Δs` is one half of the third derivative of the dual barrier contracted with `u`
+and `v`: for every interior `z` and all `u, v`,
+`d/dt [ H_dual(z + t u) v ]_{t=0} = 2 · higher_correction_of(z; u, v)` (all three rows), i.e.
+`η = +½ ∇³f*(z)[u, v]` (the sign the code computes; `combined_ds_shift` subtracts it). -/
+theorem exp_third_order {z0 z1 z2 : ℝ} (h : ExpDualInterior z0 z1 z2) (u0 u1 u2 v0 v1 v2 : ℝ) :
+    let η := Exp.higherCorrectionOf (z0, z1, z2) (u0, u1, u2) (v0, v1, v2)
+    HasDerivAt (fun t => ((Exp.hessDual (z0 + t * u0, z1 + t * u1, z2 + t * u2)).mul (v0, v1, v2)).1) (2 * η.1) 0 ∧
+    HasDerivAt (fun t => ((Exp.hessDual (z0 + t * u0, z1 + t * u1, z2 + t * u2)).mul (v0, v1, v2)).2.1) (2 * η.2.1) 0 ∧
+    HasDerivAt (fun t => ((Exp.hessDual (z0 + t * u0, z1 + t * u1, z2 + t * u2)).mul (v0, v1, v2)).2.2) (2 * η.2.2) 0 := by
+  have hi := (exp_dualInt_iff z0 z1 z2).mpr h
+  exact ⟨Exp.third_row0 u0 u1 u2 v0 v1 v2 hi, Exp.third_row1 u0 u1 u2 v0 v1 v2 hi,
+    Exp.third_row2 u0 u1 u2 v0 v1 v2 hi⟩
+
+/-- [F]/[S] the `u` of `higher_correction` is `H⁻¹Δs`: when the explicit 3×3 Cholesky
+factorisation of the stored `H_dual` succeeds, the explicit solve returns `u` with `H u = Δs` and
+`higher_correction = higher_correction_of(z; u, v)`; when it fails the correction is zero. -/
+theorem higher_correction_solve (H : Sym3 ℝ) (z ds v : V3 ℝ) :
+    (∀ L, Sym3.choleskyFactor H = (true, L) →
+      H.mul (Sym3.choleskySolve L ds) = ds ∧
+      Exp.higherCorrection H z ds v = Exp.higherCorrectionOf z (Sym3.choleskySolve L ds) v) ∧
+    (∀ L, Sym3.choleskyFactor H = (false, L) → Exp.higherCorrection H z ds v = (0, 0, 0)) := by
+  constructor
+  · intro L hL
+    refine ⟨Sym3.cholesky_solve_correct H L ds hL, ?_⟩
+    unfold Exp.higherCorrection
+    rw [hL]
+    rfl
+  · intro L hL
+    unfold Exp.higherCorrection
+    rw [hL]
+    rfl
 
 /-! ## Power cone (exponent `a ∈ (0,1)`) -/
 
@@ -332,6 +367,94 @@ theorem genpow_central_point (al : Array ℝ) (dim2 : Nat) (hal : ∀ a ∈ al.t
       D.grad = Vec.negate (GenPow.unitInitialization al dim2) :=
   GenPow.central al dim2 hal
 
+/-- interior of the generalised power cone `K = { (u,w) : Π uᵢ^{αᵢ} ≥ ‖w‖, u ≥ 0 }`, in squared
+form: `u > 0` and `‖w‖² < Π uᵢ^{2αᵢ}` (lists: `al` exponents, `u`, `w` the two coordinate classes) -/
+def GenPowPrimalInterior (al u w : List ℝ) : Prop :=
+  (∀ x ∈ u, 0 < x) ∧ (w.map (fun x => x * x)).sum < ((al.zip u).map (fun p => p.2 ^ (2 * p.1))).prod
+
+/-- interior of the dual cone `K* = { (u,w) : Π (uᵢ/αᵢ)^{αᵢ} ≥ ‖w‖, u ≥ 0 }`, in squared form -/
+def GenPowDualInterior (al u w : List ℝ) : Prop :=
+  (∀ x ∈ u, 0 < x) ∧
+    (w.map (fun x => x * x)).sum < ((al.zip u).map (fun p => (p.2 / p.1) ^ (2 * p.1))).prod
+
+/-- [R] (all dimensions) the membership tests of the generalised power cone — the
+`exp(Σ 2αᵢ log ·) - ‖w‖² > 0` forms — decide membership in the open primal / dual cone. -/
+theorem genpow_membership (al u w : List ℝ) (hlen : al.length = u.length) (ha : ∀ a ∈ al, 0 < a) :
+    (GenPow.isPrimalFeasible al.toArray (u ++ w).toArray = .ok true ↔ GenPowPrimalInterior al u w) ∧
+    (GenPow.isDualFeasible al.toArray (u ++ w).toArray = .ok true ↔ GenPowDualInterior al u w) :=
+  ⟨GenPow.isPrimalFeasible_iff al u w hlen, GenPow.isDualFeasible_iff al u w hlen ha⟩
+
+/-- [R] (all dimensions) the model's `barrier_dual` evaluates to the real function
+`GenPow.barrierVal al u w = -log(exp(Σ 2αᵢ log(uᵢ/αᵢ)) - ‖w‖²) - Σ (1-αᵢ) log uᵢ`
+(with `logsafe` for `log`), and at an interior point `update_dual_grad_H` succeeds and stores
+`grad = [gradU(αᵢ,uᵢ)]ᵢ ++ [gradW(wⱼ)]ⱼ` with `φ = Π(uᵢ/αᵢ)^{2αᵢ}`, `ζ = φ - ‖w‖²`,
+`gradU = -(2α/u)φ/ζ - (1-α)/u`, `gradW = (2/ζ) w`. -/
+theorem genpow_grad_entries (al u w : List ℝ) (hlen : al.length = u.length)
+    (h : GenPowDualInterior al u w) :
+    GenPow.barrierDual al.toArray (u ++ w).toArray = .ok (GenPow.barrierVal al u w) ∧
+    ∃ D, GenPow.updateDualGradH al.toArray (u ++ w).toArray = .ok D ∧
+      D.grad.toList =
+        (al.zip u).map (fun p => GenPow.gradU (GenPow.prodPhi al u) (GenPow.prodPhi al u - GenPow.sumSq w) p.1 p.2)
+          ++ w.map (GenPow.gradW (GenPow.prodPhi al u - GenPow.sumSq w)) := by
+  refine ⟨GenPow.barrierDual_eq al u w hlen, GenPow.updateDualGradH_grad al u w hlen ?_⟩
+  have := h.2
+  unfold GenPow.prodPhi GenPow.sumSq
+  linarith
+
+/-- [R] (all dimensions, every coordinate of both classes) the stored gradient entries are the
+partial derivatives of the dual barrier.  A coordinate is singled out by a zipper
+`al = a₁ ++ a :: a₂`, `u = u₁ ++ t :: u₂` (resp. `w = w₁ ++ t :: w₂`); `φ`, `ζ` as in
+`genpow_grad_entries`. -/
+theorem genpow_grad_is_derivative :
+    (∀ (a1 a2 u1 u2 w : List ℝ) (a t : ℝ), a1.length = u1.length → (∀ x ∈ a1 ++ a :: a2, 0 < x) →
+      GenPowDualInterior (a1 ++ a :: a2) (u1 ++ t :: u2) w →
+      HasDerivAt (fun x => GenPow.barrierVal (a1 ++ a :: a2) (u1 ++ x :: u2) w)
+        (GenPow.gradU (GenPow.prodPhi (a1 ++ a :: a2) (u1 ++ t :: u2))
+          (GenPow.prodPhi (a1 ++ a :: a2) (u1 ++ t :: u2) - GenPow.sumSq w) a t) t) ∧
+    (∀ (al u w1 w2 : List ℝ) (t : ℝ), (∀ x ∈ al, 0 < x) →
+      GenPowDualInterior al u (w1 ++ t :: w2) →
+      HasDerivAt (fun x => GenPow.barrierVal al u (w1 ++ x :: w2))
+        (GenPow.gradW (GenPow.prodPhi al u - GenPow.sumSq (w1 ++ t :: w2)) t) t) := by
+  constructor
+  · intro a1 a2 u1 u2 w a t hlen ha h
+    have hu : GenPow.AllPos (u1 ++ t :: u2) := h.1
+    have hφ := GenPow.prodPhi_eq_exp _ _ ha hu
+    rw [← GenPow.logPhiS_eq _ _ ha hu] at hφ
+    have ht : 0 < t := hu t (by simp)
+    have hpa : 0 < a := ha a (by simp)
+    have hζ : 0 < Real.exp (GenPow.logPhiS (a1 ++ a :: a2) (u1 ++ t :: u2)) - GenPow.sumSq w := by
+      rw [← hφ]; have := h.2; unfold GenPow.prodPhi GenPow.sumSq; linarith
+    have := GenPow.barrier_dU a1 a2 u1 u2 w a t hlen hpa ht hζ
+    rw [← hφ] at this
+    exact this
+  · intro al u w1 w2 t ha h
+    have hu : GenPow.AllPos u := h.1
+    have hφ := GenPow.prodPhi_eq_exp _ _ ha hu
+    rw [← GenPow.logPhiS_eq _ _ ha hu] at hφ
+    have hζ : 0 < Real.exp (GenPow.logPhiS al u) - GenPow.sumSq (w1 ++ t :: w2) := by
+      rw [← hφ]; have := h.2; unfold GenPow.prodPhi GenPow.sumSq; linarith
+    have := GenPow.barrier_dW al u w1 w2 t hζ
+    rw [← hφ] at this
+    exact this
+
+/-- [R] (all dimensions) log-homogeneity of degree `ν = dim₁ + 1`: for exponents summing to one,
+`⟨∇f*(z), z⟩ = -(dim₁ + 1)` for the stored gradient at every interior point. -/
+theorem genpow_log_homogeneity (al u w : List ℝ) (hlen : al.length = u.length) (hsum : al.sum = 1)
+    (h : GenPowDualInterior al u w) :
+    ∃ D, GenPow.updateDualGradH al.toArray (u ++ w).toArray = .ok D ∧
+      Vec.dot D.grad (u ++ w).toArray = -((al.length : ℝ) + 1) := by
+  have hζ : 0 < GenPow.prodPhi al u - GenPow.sumSq w := by
+    have := h.2; unfold GenPow.prodPhi GenPow.sumSq; linarith
+  obtain ⟨D, hD, hg⟩ := GenPow.updateDualGradH_grad al u w hlen hζ
+  refine ⟨D, hD, ?_⟩
+  have : D.grad = D.grad.toList.toArray := by simp
+  rw [this, hg]
+  exact GenPow.log_homogeneity al u w hlen h.1 hsum hζ
+
+example : GenPowDualInterior [1 / 2, 1 / 2] [1, 1] [1] := by
+  refine ⟨by simp, ?_⟩
+  norm_num
+
 /-! ## Primal–dual scaling (3-d cones; class [F] algebra, stated over ℝ) -/
 
 open Nonsym in
@@ -392,6 +515,59 @@ theorem pd_scaling_psd_partial (Hd : Sym3 ℝ) (st zt s z : V3 ℝ)
   rw [hH, rank3_quadForm]
   have := ht hmu
   positivity
+
+open Nonsym in
+/-- [F] Strict positive definiteness of the primal–dual `Hs`: with both denominators positive
+(`⟨s,z⟩ > 0`, `⟨δs,δz⟩ > 0` — two of the four tests of the branch), a positive Frobenius weight
+`t = μ‖·‖_F` and `z × zt ≠ 0` (the third axis exists), `xᵀ Hs x > 0` for every `x ≠ 0`.
+Uses log-homogeneity `⟨∇f*(z), z⟩ = -3` and `⟨s, g(s)⟩ = -3`: then
+`det[s; δs; z×zt] = ⟨s,z⟩·⟨δs,zt⟩ ≠ 0` (Binet–Cauchy), so the three rank-one terms span. -/
+theorem pd_scaling_posdef (Hd : Sym3 ℝ) (st zt s z : V3 ℝ)
+    (hst : dotR st z = -3) (hszt : dotR s zt = -3)
+    (h1 : 0 < (pdQuantities Hd st zt s z).dotSz) (h2 : 0 < (pdQuantities Hd st zt s z).dotDsz)
+    (ht : 0 < pdWeight Hd st zt (pdQuantities Hd st zt s z)) (hc : cross3 z zt ≠ (0, 0, 0))
+    (x : V3 ℝ) (hx : x ≠ (0, 0, 0)) :
+    0 < (pdHs Hd st zt s z (pdQuantities Hd st zt s z)).quadForm x x := by
+  obtain ⟨k1, k2, k3, k4⟩ := pd_key Hd st zt s z hst
+  obtain ⟨k, hk0, hk⟩ := normalize3_smul_ne (cross3 z zt) hc
+  rw [pdHs_eq_rank3', rank3_quadForm]
+  generalize pdWeight Hd st zt (pdQuantities Hd st zt s z) = t at *
+  generalize (pdQuantities Hd st zt s z).dotSz = D1 at *
+  generalize (pdQuantities Hd st zt s z).dotDsz = D2 at *
+  generalize (pdQuantities Hd st zt s z).mu = mu at *
+  generalize (pdQuantities Hd st zt s z).ds = ds at *
+  have hmu : 0 < mu := by linarith
+  have hA : 0 ≤ dotR s x ^ 2 / D1 := by positivity
+  have hB : 0 ≤ dotR ds x ^ 2 / D2 := by positivity
+  have hC : 0 ≤ t * dotR (normalize3 (cross3 z zt)) x ^ 2 := by positivity
+  by_contra hle
+  rw [not_lt] at hle
+  have eA : dotR s x ^ 2 / D1 = 0 := by linarith
+  have eB : dotR ds x ^ 2 / D2 = 0 := by linarith
+  have eC : t * dotR (normalize3 (cross3 z zt)) x ^ 2 = 0 := by linarith
+  have dA : dotR s x = 0 := by
+    rcases div_eq_zero_iff.mp eA with h | h
+    · exact pow_eq_zero_iff (by norm_num) |>.mp h
+    · linarith
+  have dB : dotR ds x = 0 := by
+    rcases div_eq_zero_iff.mp eB with h | h
+    · exact pow_eq_zero_iff (by norm_num) |>.mp h
+    · linarith
+  have dC : dotR (cross3 z zt) x = 0 := by
+    rcases mul_eq_zero.mp eC with h | h
+    · linarith
+    · have h' : dotR (normalize3 (cross3 z zt)) x = 0 := pow_eq_zero_iff (by norm_num) |>.mp h
+      rw [hk] at h'
+      have : k * dotR (cross3 z zt) x = 0 := by
+        unfold dotR at h' ⊢; simp only at h' ⊢; linear_combination h'
+      exact (mul_eq_zero.mp this).resolve_left hk0
+  apply hx
+  apply eq_zero_of_dots s ds (cross3 z zt) x _ dA dB dC
+  rw [det_binet, k1, ← k4, hszt]
+  have hq : dotR ds zt ≠ 0 := by
+    intro h0; rw [k2, h0, mul_zero] at h2; exact lt_irrefl _ h2
+  simp only [mul_zero, sub_zero]
+  exact mul_ne_zero (ne_of_gt h1) hq
 
 open Nonsym in
 /-- [S] otherwise the code falls back to `Hs = μ·H_dual` with `μ = ⟨s,z⟩/3`; and the `Dual`
